@@ -206,6 +206,10 @@ pub fn one_program<F>(
         .filter(|o| matches!(o, Op::Alu { kind: p3_circuit::AluOpKind::MulAdd, intermediate_out: Some(_), .. }))
         .count();
     bump(&mut rep.hist, "fusion.hits", fused as u64);
+    // the Lean driver re-checks the fusion pass of this program with its verified certificate
+    // checker and must answer `ok` with the same number of fused sites
+    writeln!(cases, "fcheck").unwrap();
+    writeln!(implo, "fcheck ok {fused}").unwrap();
 
     // input vectors: the base (satisfying by construction unless a zero divisor was allowed),
     // then single-input perturbations
@@ -328,6 +332,28 @@ pub fn one_program<F>(
             }
         } else {
             bump(&mut rep.hist, "c03.ops_reject", 1);
+        }
+        // adversarial variant: the product slot of a fused MulAdd is constrained by no row. Give
+        // it a wrong value; if the emitted ops still accept, *repair* the product slots (the
+        // `w'` of theorem `fusion_check_sound`): if the repaired assignment is rejected by an
+        // emitted op or violates the source, something observed the product slot.
+        if fused > 0 {
+            if let Some(w_adv) = ops_only_assignment_adv(&circuit, &pubs, &priv_slots, true) {
+                bump(&mut rep.hist, "c03.ops_accept_adv", 1);
+                let mut w_rep = w_adv.clone();
+                for op in &circuit.ops {
+                    if let Op::Alu { kind: p3_circuit::AluOpKind::MulAdd, a, b, intermediate_out: Some(io), .. } = op {
+                        w_rep[io.0 as usize] = w_rep[a.0 as usize] * w_rep[b.0 as usize];
+                    }
+                }
+                let ops_ok = ops_sat_full(&circuit, &w_rep, &pubs);
+                let src = source_violation(&prog.calls, &prog.rets, &circuit, &w_rep, &pubs, &privs);
+                if !ops_ok || src.is_some() {
+                    rep.violations.push(json!({"property":"C03","kind":"ops-accept-assignment-violating-source",
+                        "class":"fused-product-observable", "repaired_ops_hold": ops_ok,
+                        "call": src.map(|x| x.1), "replay": replay}));
+                }
+            }
         }
     }
     if rep.samples.len() < 3 {
